@@ -4,6 +4,7 @@ import (
 	"context"
 	"errors"
 	"fmt"
+	"io"
 	"os"
 	"runtime"
 	"runtime/debug"
@@ -73,6 +74,9 @@ type Engine struct {
 func NewEngine(e Eng, remotes []*Remote) *Engine {
 	reg := prometheus.NewRegistry()
 	opts := engine.Opts{EngineOpts: promOpts(e.LookbackMs, reg), LogicalOptimizers: optimizers(e.Optim), DisableFallback: e.NoFallback}
+	if e.Debug {
+		opts.DebugWriter = io.Discard
+	}
 	if e.Distributed {
 		engs := make([]api.RemoteEngine, len(remotes))
 		for i, r := range remotes {
@@ -123,6 +127,9 @@ type Remote struct {
 func NewRemote(e Eng, st *store.Store) *Remote {
 	e.Distributed = false
 	opts := engine.Opts{EngineOpts: promOpts(e.LookbackMs, nil), LogicalOptimizers: optimizers(e.Optim), DisableFallback: e.NoFallback}
+	if e.Debug {
+		opts.DebugWriter = io.Discard
+	}
 	return &Remote{inner: engine.NewLocalEngine(opts, st), Store: st}
 }
 
@@ -289,6 +296,7 @@ type QueryRun struct {
 	Parts    []*store.Store // distributed: the partition storages behind the remote engines
 	NoClose  bool
 	Contract bool
+	Client   int // index of the client task (names its canceller)
 }
 
 func sched_yield() { sched.Yield("client.step") }
@@ -394,7 +402,7 @@ func RunQuery(r QueryRun) (o *Outcome) {
 	}
 	clientDone := make(chan struct{})
 	if op.ClientCancelStep > 0 && r.Sim != nil {
-		r.Sim.Go("canceller", 0, func() {
+		r.Sim.Go("canceller", r.Client, func() {
 			defer close(clientDone)
 			r.Sim.HoldUntil(op.ClientCancelStep)
 			if o.ExecEnd != 0 {
@@ -428,6 +436,24 @@ func RunQuery(r QueryRun) (o *Outcome) {
 				}
 			}
 		})
+	} else if op.ClientCancelStep > 0 && r.Sim == nil {
+		// free-running (race detector): a second goroutine cancels after a few reschedules
+		go func() {
+			defer close(clientDone)
+			for i := 0; i < op.ClientCancelStep; i++ {
+				runtime.Gosched()
+			}
+			defer func() {
+				if p := recover(); p != nil {
+					o.CancelPanic = fmt.Sprintf("%v | %s", p, trimStack(debug.Stack()))
+				}
+			}()
+			if op.ClientClose {
+				q.Close()
+			} else {
+				q.Cancel()
+			}
+		}()
 	} else {
 		close(clientDone)
 	}
